@@ -77,15 +77,16 @@ PAYLOAD_KW = {"x": [1, 2], "y": {"z": "w"}}
 def mk_task(spec: Dict[str, Any]) -> ScheduledTask:
     sid = spec["sid"]
     labels = {"lbl": f"L{sid}", "n": sid}
+    tn = spec.get("tn") or sid          # several schedules may belong to the same task
     if spec["kind"] == "cron":
         mins = spec["mins"]
         expr = ("*" if len(mins) == 60 else ",".join(str(m) for m in mins)) + " * * * *"
-        return ScheduledTask(task_name=f"task{sid}", labels=labels, args=PAYLOAD_ARGS + [sid], kwargs=dict(PAYLOAD_KW, sid=sid),
+        return ScheduledTask(task_name=f"task{tn}", labels=labels, args=PAYLOAD_ARGS + [sid], kwargs=dict(PAYLOAD_KW, sid=sid),
                              schedule_id=f"s{sid}", cron=expr)
     T = B0 + _dt.timedelta(milliseconds=spec["T"])
     if spec.get("naive"):
         T = T.replace(tzinfo=None)
-    return ScheduledTask(task_name=f"task{sid}", labels=labels, args=PAYLOAD_ARGS + [sid], kwargs=dict(PAYLOAD_KW, sid=sid),
+    return ScheduledTask(task_name=f"task{tn}", labels=labels, args=PAYLOAD_ARGS + [sid], kwargs=dict(PAYLOAD_KW, sid=sid),
                          schedule_id=f"s{sid}", time=T)
 
 
@@ -99,11 +100,15 @@ class ScriptedSource(ScheduleSource):
         self.npolls = 0
         for s in spec.get("sched", []):
             self.add(s)
-        if spec.get("pre") == "async":
+        if spec.get("pre") == "async" and spec.get("future"):
+            self.pre_send = self._pre_future  # type: ignore[method-assign]
+        elif spec.get("pre") == "async":
             self.pre_send = self._pre_async  # type: ignore[method-assign]
         elif spec.get("pre") == "sync":
             self.pre_send = self._pre_sync  # type: ignore[method-assign]
-        if spec.get("post", "sync") == "async":
+        if spec.get("post", "sync") == "async" and spec.get("future"):
+            self.post_send = self._post_future  # type: ignore[method-assign]
+        elif spec.get("post", "sync") == "async":
             self.post_send = self._post_async  # type: ignore[method-assign]
         else:
             self.post_send = self._post_sync  # type: ignore[method-assign]
@@ -146,6 +151,17 @@ class ScriptedSource(ScheduleSource):
         self.env.rec("postsend", src=self.idx, sid=sid)
         if self.spec.get("removes", True) and task.time is not None and task.cron is None:
             self.items.pop(sid, None)
+
+    def _pre_future(self, task: ScheduledTask) -> Any:
+        # a plain function that returns an awaitable which is not a coroutine
+        async def later() -> None:
+            self._pre(task)
+        return asyncio.ensure_future(later())
+
+    def _post_future(self, task: ScheduledTask) -> Any:
+        async def later() -> None:
+            self._post(task)
+        return asyncio.ensure_future(later())
 
     def _post_sync(self, task: ScheduledTask) -> None:
         self._post(task)
@@ -214,7 +230,8 @@ class RecBroker(AsyncBroker):
         self.nk[sid] = self.nk.get(sid, 0) + 1
         fail = [sid, self.nk[sid]] in self.cfg.get("kickfail", [])
         exp_labels = {"lbl": f"L{sid}", "n": sid, "schedule_id": f"s{sid}"}
-        payload_ok = (tm.task_name == f"task{sid}" and tm.args == PAYLOAD_ARGS + [sid] and tm.kwargs == dict(PAYLOAD_KW, sid=sid)
+        tn = self.cfg.get("_tn", {}).get(sid, sid)
+        payload_ok = ((tm.task_name == f"task{tn}" or from_label_source) and tm.args == PAYLOAD_ARGS + [sid] and tm.kwargs == dict(PAYLOAD_KW, sid=sid)
                       and (from_label_source or tm.labels == exp_labels) and tm.labels.get("lbl") == f"L{sid}"
                       and type(tm.labels.get("n")) is int)
         self.env.rec("kick", sid=sid, n=self.nk[sid], ok=not fail, s="payload_ok" if payload_ok else "payload_bad")
@@ -237,9 +254,11 @@ def normalize(cfg: Dict[str, Any]) -> Dict[str, Any]:
     srcs = []
     for s in c.get("srcs", []):
         s2 = {"lat": s.get("lat", 0), "pre": s.get("pre", ""), "post": s.get("post", "sync"), "removes": s.get("removes", True),
+              "future": bool(s.get("future", False)),
               "fail": list(s.get("fail", [])), "sched": [norm_sched(x) for x in s.get("sched", [])]}
         srcs.append(s2)
     c["srcs"] = srcs
+    c["_tn"] = {x["sid"]: (x["tn"] or x["sid"]) for s_ in srcs for x in s_["sched"]}
     c["minute"] = 60000
     c["second"] = 1000
     return c
@@ -247,7 +266,7 @@ def normalize(cfg: Dict[str, Any]) -> Dict[str, Any]:
 
 def norm_sched(x: Dict[str, Any]) -> Dict[str, Any]:
     return {"sid": x["sid"], "kind": x["kind"], "mins": list(x.get("mins", [])), "T": x.get("T", 0), "cancel": bool(x.get("cancel", False)),
-            "naive": bool(x.get("naive", False))}
+            "naive": bool(x.get("naive", False)), "tn": x.get("tn", 0)}
 
 
 def run(scn: Dict[str, Any]) -> List[Dict[str, Any]]:
@@ -270,6 +289,7 @@ def run(scn: Dict[str, Any]) -> List[Dict[str, Any]]:
             loop.advance_to(t / 1000.0)
             if op == "add":
                 spec = norm_sched(step[3])
+                cfg["_tn"][spec["sid"]] = spec["tn"] or spec["sid"]
                 env.rec("add", src=src, sid=spec["sid"], s=spec["kind"], n=spec["T"], ok=not spec["cancel"], ids=spec["mins"])
                 sources[src - 1].add(spec)
             elif op == "remove":
